@@ -19,6 +19,8 @@ _gbu = OpContract(
         spec=("duration_next", "duration_error", "duration_completed"), id_local="key", once=True,
         # while its duration is pending a group is the live group of its key, and its duration subscription is held
         inv="maps_to(writers, key, writer) and maps_to(s.live, key, writer) and contains(group_disposable.disposable, sad)",
+        # rely: the invariant of every OTHER pending member survives every step (distinct groups have distinct writers and slots)
+        locals={"key": "val", "writer": "ref:subject", "sad": "ref"}, unique=("writer", "sad"),
     )},
 )
 _gbu.subjects = True
